@@ -213,16 +213,17 @@ ASSUME_IDNA = ['oracle = the TLA+ transcription of UTS #46 / RFC 3492 / RFC 5892
 
 M_IDNA = dict(module='MC_Idna', cfg_quick='MC_Idna_quick', cfg_thorough='MC_Idna_thorough', post=[collect_idna_behaviours],
               timeout=3000)
+M_IDNA_WIDE = dict(module='MC_Idna', cfg_quick='MC_Idna_pairs', cfg_thorough='MC_Idna_triples', post=[collect_idna_behaviours], timeout=6000)
 W_IDNA_REPLAY = WI('tlc-strings-replayed', w_idna_replay)
 W_IDNA_VEC = WI('spec-vs-wpt-vectors', gen_idna.w_spec_vectors, replayable=False)
 W_IDNA_WPT = WI('wpt-idna-inputs', gen_idna.w_wpt_inputs, 1, 0)
 
 
-PROPS['C06'] = dict(level=MC, rule=RULE_IDNA, assumptions=ASSUME_IDNA, models=[M_IDNA],
+PROPS['C06'] = dict(level=MC, rule=RULE_IDNA, assumptions=ASSUME_IDNA, models=[M_IDNA, M_IDNA_WIDE],
                     workloads=[W_IDNA_REPLAY, W_IDNA_VEC, W_IDNA_WPT,
                                WI('fragment-random', gen_idna.w_frag_random, 4000, 120000),
                                WI('punycode-labels', gen_idna.w_puny_labels, 600, 20000)])
-PROPS['C16'] = dict(level=MC, rule=RULE_IDNA, assumptions=ASSUME_IDNA, models=[M_IDNA],
+PROPS['C16'] = dict(level=MC, rule=RULE_IDNA, assumptions=ASSUME_IDNA, models=[M_IDNA, M_IDNA_WIDE],
                     workloads=[WI('equivalent-pairs', gen_idna.w_equivalent, 4000, 150000),
                                WI('laws-arbitrary-code-points', gen_idna.w_laws, 4000, 150000),
                                W_IDNA_WPT, W_IDNA_VEC, W_IDNA_REPLAY,
